@@ -557,6 +557,11 @@ fn job_workload(master: u64, job: u64, tier: Tier) -> Vec<u8> {
         let len = rng.range(660_000, 1_000_000) as usize;
         return workload::gen_incompressible(&mut rng, len);
     }
+    if job % 16 == 7 {
+        // expanded form hundreds of times larger than the file and than any exact-fit window
+        let len = rng.range(60_000, 900_000) as usize;
+        return workload::gen_high_ratio_file(&mut rng, len);
+    }
     let sc = match (tier, job % 10) {
         (Tier::Quick, _) => workload::SMALL,
         (Tier::Thorough, 0..=5) => workload::SMALL,
